@@ -213,7 +213,7 @@ class C09(Prop):
         "seed0_nonzero32", "seed0_nonzero64", "nonzero_seed_kept", "roll_lt", "roll_unbiased32", "roll_unbiased64",
         "random_unit", "rand64_double_ranges", "deal_spec", "deal_spec_abstract", "dchoose_nonzero", "dchoose_never_fatal", "dchoosecdf_nonzero", "dchoosecdf_never_fatal",
         "rand64_deal_spec", "rand64_deal_spec_real", "rand64_deal_vprime_one_clamped", "rand64_deal_first_accepted",
-        "uniformPositive_pos", "uniform_positive_unit", "gaussian_in_bounds", "gauss_table_sizes", "gamma_positive", "dirichlet_simplex",
+        "uniformPositive_pos", "uniform_positive_unit", "gaussian_in_bounds", "gauss_table_sizes", "gamma_positive_real_partial", "dirichlet_simplex_real_partial",
         "mem_bytes", "floatstring_fits", "samplers_replay", "mt_constants_published", "model_constants_regenerated", "temper_linear",
         "seed0_create_replays", "seed0_init_replays", "rand64_init_replays", "dump_in_bounds", "dump_in_bounds_reinit", "dump_prefix_out_of_bounds",
         "rand64_deal_spec_abstract", "rand64_deal_prefix_out_of_range", "rand64_deal_prefix_defect_carrier")] + ["EaselModel.MTP.fill_correct", "EaselModel.MTP.stream_eq_spec"]
@@ -228,7 +228,8 @@ class C09(Prop):
                   "generator state) is proved twice: over any ordered field with arbitrary exp/log oracles, and over an ABSTRACT float carrier with uninterpreted operations assuming only FloatFacts (sign/monotonicity of single rounded "
                   "operations, exact integers up to B=2^53, sign facts of exp/log, NaN propagation: every field sampled on binary64 at each run, 0 counterexamples) and n <= B; the pre-fix code (ba43348) is a proved counter-example on such a carrier. "
                   "Generator constants are probed from the compiled C functions at every run and proved equal to the model's and to the published ones. "
-                  "Gaussian/Gamma/Dirichlet/mem/floatstring are modelled and driven bit for bit, their support theorems are over R (L0 for binary64).")
+                  "Gaussian/Gamma/Dirichlet/mem/floatstring are modelled and driven bit for bit, their support theorems are over R only (L0); "
+                  "gamma_positive / dirichlet_simplex do NOT transfer to binary64 (underflow of pow(V,1/a) for a ~ 0.001: Gamma returns 0.0, Dirichlet NaN; regression cases gamma-underflow, dirichlet-underflow).")
     diverge_is_violation = True   # every op is a deterministic documented function of (seed, history)
     trusted_base = ["hand model of esl_random.c/esl_rand64.c tied by exact differential run (h_random.c, ASan+UBSan build of the working tree)",
                     "Lean compiler/runtime for the executable driver", "gcc; IEEE-754 division/multiplication by powers of two exact (L0)"]
@@ -250,6 +251,11 @@ class C09(Prop):
         if bad:
             raise RuntimeError("FloatFacts (Deal64Abs.lean) is false on binary64: %r" % (bad,))
         return g
+
+    _NAN = __import__("re").compile(r"\b[7f]ff[89a-f][0-9a-f]{12}\b|\b[7f]ff[0-7](?!0{12})[0-9a-f]{12}\b")
+    def canonical(self, line):
+        # a NaN result (e.g. Dirichlet 0./0.) is compared as NaN: sign and payload differ between gcc's and Lean's printing
+        return self._NAN.sub("nan", line) if "ff" in line else line
 
     def extra_evidence(self, ctx):
         return {"float_facts_on_binary64": {"instances_evaluated": getattr(self, "_ff_count", 0), "counterexamples": 0,
@@ -303,6 +309,11 @@ class C09(Prop):
             {"name": "roll64-boundary", "ops": ["new64 seed=1", "pokeraw64 w=%d" % untemper64(10 * (M64 // 10)), "roll64 n=10",
                 "pokeraw64 w=%d" % untemper64(10 * (M64 // 10) - 1), "roll64 n=10", "u64 k=2"]},
             {"name": "dchoose-zero-roll", "ops": ["new32 seed=7", "pokeraw w=%d" % untemper(0), "dchoose p=" + ",".join(dbits(x) for x in (0.0, 0.5, 0.5)), "random"]},
+            # binary64 behaviour the R-only theorems gamma_positive_real_partial / dirichlet_simplex_real_partial do not cover:
+            # pow(V, 1/a) underflows for small a: Gamma returns exactly 0.0, Dirichlet {NaN, NaN} when every component does
+            {"name": "gamma-underflow", "ops": ["new32 seed=42"] + ["gamma a=%s" % dbits(0.001)] * 6 + ["pos32"]},
+            {"name": "dirichlet-underflow", "ops": ["new32 seed=42"] + ["gamma a=%s" % dbits(0.001)] * 40
+                     + ["dirichlet alpha=%s,%s" % (dbits(0.001), dbits(0.001))] * 3 + ["pos32", "u32 k=2"]},
             {"name": "fast", "ops": ["newfast seed=1", "u32 k=3", "roll n=6", "init seed=1", "u32 k=3"]},
             # regression for fix ba43348: the accepted Vprime is exactly 1.0; before the fix the C code returned {7,27}
             {"name": "deal64-vprime-one",
@@ -319,6 +330,12 @@ class C09(Prop):
                      "newtime", "u32 k=625", "init seed=0", "random", "new64 seed=0", "u64 k=2", "init64 seed=0", "u64 k=313", "dump64",
                      "env t=0 p=0 c=0", "new32 seed=0", "new64 seed=0", "newfast seed=0", "u32 k=1",
                      "env t=4294967295 p=4294967295 c=4294967295", "newtime", "new64 seed=0", "roll64 n=7", "init seed=4294967295", "u32 k=2"]},
+            # the `== 0 ? 42` fallbacks are live: mix3(1901478223, 4242, 1234) = 0 (arbitrary seed becomes 42; the 64-bit seed gets a zero
+            # high word), mix3(2154033337, 4242, 1234) = 1, and mix3(seed, 87654321, 12345678) = 0 for the two LCG seeds below (x = 42)
+            {"name": "seed-fallback-42", "ops": ["env t=1901478223 p=4242 c=1234", "new32 seed=0", "w32 k=2", "newfast seed=0", "w32 k=2", "newtime", "u32 k=1",
+                     "newfast seed=1240482182", "pos32", "w32 k=3", "newfast seed=3863634509", "w32 k=2", "init seed=1240482182", "w32 k=2", "dump32",
+                     "new64 seed=0", "w64 k=2", "init64 seed=0", "pos64", "env t=2154033337 p=4242 c=1234", "new32 seed=0", "w32 k=1", "init seed=0", "newtime"]},
+            {"name": "dump-last-word", "ops": ["new32 seed=7", "u32 k=623", "pos32", "dump32", "u32 k=1", "pos32", "dump32", "new64 seed=7", "u64 k=311", "dump64", "u64 k=1", "dump64"]},
             {"name": "seeds-boundary", "ops": ["new32 seed=4294967295", "u32 k=625", "gauss mean=%s sd=%s" % (dbits(0.0), dbits(1.0)), "init seed=4294967295", "u32 k=1",
                      "new64 seed=4294967296", "u64 k=313", "new64 seed=4294967295", "u64 k=2", "new64 seed=18446744073709551615", "deal64 m=3 n=100", "pos64",
                      "init64 seed=4294967297", "dblopen", "int64"]},
